@@ -124,11 +124,17 @@ func (i *handler) renderCodec(ctx context.Context, w http.ResponseWriter, r *htt
 		responseContentType = cidContentType
 	}
 
-	// Set HTTP headers (for caching, etc). Etag will be replaced if handled by serveCodecHTML.
-	modtime := addCacheControlHeaders(w, r, rq.contentPath, rq.ttl, rq.lastMod, resolvedPath.RootCid(), responseContentType)
-	_ = setCodecContentDisposition(w, r, resolvedPath, responseContentType)
-	w.Header().Set("Content-Type", responseContentType)
-	w.Header().Set("X-Content-Type-Options", "nosniff")
+	// Sets the HTTP headers of the block response (for caching, etc). Called
+	// only once it is known that the block will be served: redirects and errors
+	// (400, 406) must not carry the validator and the, possibly immutable,
+	// Cache-Control of the content, or caches may keep them for as long.
+	setHeaders := func() time.Time {
+		modtime := addCacheControlHeaders(w, r, rq.contentPath, rq.ttl, rq.lastMod, resolvedPath.RootCid(), responseContentType)
+		_ = setCodecContentDisposition(w, r, resolvedPath, responseContentType)
+		w.Header().Set("Content-Type", responseContentType)
+		w.Header().Set("X-Content-Type-Options", "nosniff")
+		return modtime
+	}
 
 	// No content type is specified by the user (via Accept, or format=). However,
 	// we support this format. Let's handle it.
@@ -142,7 +148,7 @@ func (i *handler) renderCodec(ctx context.Context, w http.ResponseWriter, r *htt
 		} else {
 			// This covers CIDs with codec 'json' and 'cbor' as those do not have
 			// an explicit requested content type.
-			return i.serveCodecRaw(ctx, w, r, blockSize, blockData, rq.contentPath, modtime, rq.begin)
+			return i.serveCodecRaw(ctx, w, r, blockSize, blockData, rq.contentPath, setHeaders(), rq.begin)
 		}
 	}
 
@@ -151,7 +157,7 @@ func (i *handler) renderCodec(ctx context.Context, w http.ResponseWriter, r *htt
 	skipCodecs, ok := contentTypeToRaw[rq.responseFormat]
 	if ok {
 		if slices.Contains(skipCodecs, cidCodec) {
-			return i.serveCodecRaw(ctx, w, r, blockSize, blockData, rq.contentPath, modtime, rq.begin)
+			return i.serveCodecRaw(ctx, w, r, blockSize, blockData, rq.contentPath, setHeaders(), rq.begin)
 		}
 	}
 
@@ -173,11 +179,11 @@ func (i *handler) renderCodec(ctx context.Context, w http.ResponseWriter, r *htt
 
 	// If codecs match, serve raw (no conversion needed)
 	if toCodec == cidCodec {
-		return i.serveCodecRaw(ctx, w, r, blockSize, blockData, rq.contentPath, modtime, rq.begin)
+		return i.serveCodecRaw(ctx, w, r, blockSize, blockData, rq.contentPath, setHeaders(), rq.begin)
 	}
 
 	// AllowCodecConversion is true - perform DAG-* conversion
-	return i.serveCodecConverted(ctx, w, r, blockCid, blockData, rq.contentPath, toCodec, modtime, rq.begin)
+	return i.serveCodecConverted(ctx, w, r, blockCid, blockData, rq.contentPath, toCodec, setHeaders(), rq.begin)
 }
 
 func (i *handler) serveCodecHTML(ctx context.Context, w http.ResponseWriter, r *http.Request, blockCid cid.Cid, blockData io.Reader, resolvedPath path.ImmutablePath, contentPath path.Path) bool {
@@ -210,6 +216,7 @@ func (i *handler) serveCodecHTML(ctx context.Context, w http.ResponseWriter, r *
 	// A HTML directory index will be presented, be sure to set the correct
 	// type instead of relying on autodetection (which may fail).
 	w.Header().Set("Content-Type", "text/html")
+	w.Header().Set("X-Content-Type-Options", "nosniff")
 
 	// Clear Content-Disposition -- we want HTML to be rendered inline
 	w.Header().Del("Content-Disposition")
